@@ -308,7 +308,6 @@ type oracleFail struct{ key, detail string }
 func oracleHistory(built []*Built, pres []Pres) []oracleFail {
 	var fails []oracleFail
 	firstAccept := map[int]int64{}
-	acceptedSince := map[int]int{} // accepted presentations of other requests since req's first accept
 	seenFirstChunk := map[[32]byte]bool{}
 	seenForgedSalt := map[[32]byte]bool{}
 	for i, p := range pres {
@@ -325,12 +324,10 @@ func oracleHistory(built []*Built, pres []Pres) []oracleFail {
 			fails = append(fails, oracleFail{"accepted-outside-30s", fmt.Sprintf("presentation %d: request %d with timestamp %d accepted at %d ns", i, p.Req, int64(b.Ts), p.Now)})
 		}
 		if t1, ok := firstAccept[p.Req]; ok && acc && tsPasses(b.Ts, p.Now) {
-			key := "double-accept:within-retention"
-			if p.Now-t1 >= 60e9 && acceptedSince[p.Req] > 0 {
-				// the second acceptance came a minute or more after the first, after another accepted request
-				key = "F2:replay-after-prune"
-			} else if p.Now-t1 >= 60e9 {
-				key = "double-accept:after-60s"
+			key := "double-accept:within-60s"
+			if p.Now-t1 >= 60e9 {
+				// the second acceptance came a minute or more after the first (some Add in between pruned the salt)
+				key = f2Key
 			}
 			fails = append(fails, oracleFail{key, fmt.Sprintf("request %d (timestamp %d) accepted at %d ns and again at %d ns (%.9f s later), where its timestamp still passes",
 				p.Req, int64(b.Ts), t1, p.Now, float64(p.Now-t1)/1e9)})
@@ -343,11 +340,6 @@ func oracleHistory(built []*Built, pres []Pres) []oracleFail {
 			fails = append(fails, oracleFail{key, fmt.Sprintf("presentation %d: first presentation of authentic request %d (timestamp %d) at %d ns refused: %s", i, p.Req, int64(b.Ts), p.Now, p.Class)})
 		}
 		if acc {
-			for r := range firstAccept {
-				if r != p.Req {
-					acceptedSince[r]++
-				}
-			}
 			if _, ok := firstAccept[p.Req]; !ok {
 				firstAccept[p.Req] = p.Now
 			}
